@@ -175,8 +175,14 @@ def check_crossed_keywords(eng, run, rule: str, module_prefixes: tuple[str, ...]
                 for k2, v2 in kws[i + 1:]:
                     if k1 != k2 and v1 != v2 and v1.endswith(k2) and v2.endswith(k1) and not v1.endswith(k1) and not v2.endswith(k2):
                         crossed.append((k1, v1, k2, v2))
+            # ... or one keyword is given the value that is the namesake of *another* keyword of the same call (which also gets it)
+            if not crossed:
+                for k1, v1 in kws:
+                    for k2, v2 in kws:
+                        if k1 != k2 and v1 == v2 and v1.endswith(k2) and not v1.endswith(k1) and not k2.endswith(k1):
+                            crossed.append((k1, v1, k2, v2))
             for k1, v1, k2, v2 in crossed[:1]:
-                run.finding(rule, fn, c, f"`{k1}={v1}` and `{k2}={v2}` are crossed over in `{ast.unparse(c.func)}(...)`: each parameter receives the value configured for the other one")
+                run.finding(rule, fn, c, f"`{k1}={v1}` and `{k2}={v2}` are crossed over / duplicated in `{ast.unparse(c.func)}(...)`: a parameter receives the value configured for another one")
             if crossed or sum(1 for k, v in kws if v.endswith(k)) >= 2:
                 run.ob(rule, f"{fn.short}:{ast.unparse(c.func)[:40]}@{c.lineno - fn.lineno}:keywords-not-crossed", not crossed)
     run.floor(f"{rule} calls with two or more named keyword arguments", n, minimum)
